@@ -6,7 +6,7 @@ boot = common.bootstrap()
 import importlib
 from collections import Counter
 mod = importlib.import_module(sys.argv[1])
-ctx = common.Ctx(sys.argv[1].upper(), 'quick', int(sys.argv[2]) if len(sys.argv) > 2 else 1)
+ctx = common.Ctx(sys.argv[1].upper(), 'quick', int(sys.argv[2]) if len(sys.argv) > 2 else 1, mod.META.get('drivers', ['drv_elapsed'])[0])
 mod.run(ctx)
 c = Counter()
 ex = {}
